@@ -4,8 +4,11 @@ package coalesce
 import (
 	"encoding/json"
 	"fmt"
+	"os"
+	"sort"
 	"strconv"
 	"strings"
+	"sync"
 	"testing"
 
 	"github.com/elastic/go-libaudit/v2/aucoalesce"
@@ -198,6 +201,71 @@ func genSingle(rt *rapid.T, tk *tokens) kenc.Rec {
 	}
 }
 
+var (
+	normTypesOnce sync.Once
+	normTypes     []uint16
+)
+
+// normRecordTypes lists every record type named in the working tree's normalizations.yaml.
+func normRecordTypes() []uint16 {
+	normTypesOnce.Do(func() {
+		b, err := os.ReadFile("/repo/aucoalesce/normalizations.yaml")
+		if err != nil {
+			return
+		}
+		_, recordTypes, err := aucoalesce.LoadNormalizationConfig(b)
+		if err != nil {
+			return
+		}
+		var names []string
+		for name := range recordTypes {
+			names = append(names, name)
+		}
+		sort.Strings(names)
+		for _, name := range names {
+			if t, err := auparse.GetAuditMessageType(name); err == nil && t != auparse.AUDIT_SYSCALL && t != auparse.AUDIT_EOE &&
+				t != auparse.AUDIT_PATH && t != auparse.AUDIT_SOCKADDR && t != auparse.AUDIT_EXECVE && t != auparse.AUDIT_SECCOMP {
+				// (SECCOMP records need sig/arch/syscall fields to be well-formed; they are generated as single records)
+				normTypes = append(normTypes, uint16(t))
+			}
+		}
+	})
+	return normTypes
+}
+
+var sourceIPOnce sync.Once
+var sourceIPList []uint16
+
+// sourceIPTypes lists the record types whose normalisation has a source_ip rule.
+func sourceIPTypes() []uint16 {
+	sourceIPOnce.Do(func() {
+		b, err := os.ReadFile("/repo/aucoalesce/normalizations.yaml")
+		if err != nil {
+			return
+		}
+		_, recordTypes, err := aucoalesce.LoadNormalizationConfig(b)
+		if err != nil {
+			return
+		}
+		var names []string
+		for name, norms := range recordTypes {
+			for _, n := range norms {
+				if len(n.SourceIP.Values) > 0 {
+					names = append(names, name)
+					break
+				}
+			}
+		}
+		sort.Strings(names)
+		for _, name := range names {
+			if t, err := auparse.GetAuditMessageType(name); err == nil {
+				sourceIPList = append(sourceIPList, uint16(t))
+			}
+		}
+	})
+	return sourceIPList
+}
+
 func genC09(rt *rapid.T) C09Case {
 	// the token range varies between cases so that ID caches meet new ids
 	tk := &tokens{n: 100 * rapid.IntRange(0, 9000).Draw(rt, "tokenbase")}
@@ -239,6 +307,32 @@ func genC09(rt *rapid.T) C09Case {
 			pos = rapid.IntRange(0, len(others)).Draw(rt, "syspos")
 		}
 		c.Recs = append(append(append([]kenc.Rec{}, others[:pos]...), sys), others[pos:]...)
+		if types := normRecordTypes(); len(types) > 0 && rapid.IntRange(0, 3).Draw(rt, "typedfirst") == 0 {
+			// the event is named after its first record: any record type of the normalisation table, with the
+			// fields user-space tools put there (account, host, address, terminal, outcome), in front of the group
+			typ := rapid.SampledFrom(types).Draw(rt, "firsttype")
+			hasSock := false
+			for _, r := range c.Recs {
+				hasSock = hasSock || r.Type == recgen.SOCKADDR
+			}
+			if hasSock && rapid.Bool().Draw(rt, "socketevent") {
+				// a network event: a syscall that makes the SOCKADDR record the source or destination, under a
+				// record type whose normalisation takes an address from its own fields
+				if st := sourceIPTypes(); len(st) > 0 {
+					typ = rapid.SampledFrom(st).Draw(rt, "sourceiptype")
+				}
+				name := rapid.SampledFrom([]string{"recvfrom", "recvmsg", "accept", "accept4", "connect", "sendto", "sendmsg", "bind"}).Draw(rt, "socksys")
+				for i := range c.Recs {
+					if c.Recs[i].Type == recgen.SYSCALL {
+						c.Recs[i] = genSyscallRecNamed(rt, tk, name)
+					}
+				}
+			}
+			first := kenc.Rec{Type: typ, Fields: []kenc.F{kenc.P("pid", tk.num()), kenc.P("uid", tk.num()), kenc.P("auid", tk.num()), kenc.P("ses", tk.num())},
+				User: []kenc.F{kenc.P("op", tk.s("op")), kenc.Q("acct", tk.s("acct")), kenc.Q("exe", "/usr/sbin/"+tk.s("exe")), kenc.P("hostname", tk.s("host")),
+					kenc.P("addr", tk.s("ad")), kenc.P("terminal", tk.s("term")), kenc.P("res", rapid.SampledFrom([]string{"success", "failed"}).Draw(rt, "firstres"))}}
+			c.Recs = append([]kenc.Rec{first}, c.Recs...)
+		}
 	}
 	if len(c.Recs) > 0 && c.Recs[len(c.Recs)-1].Type != recgen.EOE && rapid.IntRange(0, 2).Draw(rt, "eoe") == 0 {
 		c.Recs = append(c.Recs, kenc.Rec{Type: recgen.EOE})
@@ -349,7 +443,11 @@ func propC09(c C09Case) error {
 	if ev.Sequence != first.Sequence || !ev.Timestamp.Equal(first.Timestamp) || ev.Type != first.RecordType {
 		return fmt.Errorf("%s\n  event identity (%v, %d, %v) is not that of the first record (%v, %d, %v)", c.Describe(), ev.Timestamp, ev.Sequence, ev.Type, first.Timestamp, first.Sequence, first.RecordType)
 	}
-	b, _ := json.Marshal(ev)
+	// the homes the property names: Data, Paths, Process, User ids / SELinux labels, Result, Session, Tags,
+	// Source / Destination (the summary, the file summary and the ECS fields are derived copies, not homes)
+	homes := map[string]any{"data": ev.Data, "paths": ev.Paths, "process": ev.Process, "user_ids": ev.User.IDs, "user_selinux": ev.User.SELinux,
+		"result": ev.Result, "session": ev.Session, "tags": ev.Tags, "source": ev.Source, "destination": ev.Dest}
+	b, _ := json.Marshal(homes)
 	var generic any
 	_ = json.Unmarshal(b, &generic)
 	leaves, keyed := map[string]bool{}, map[string]bool{}
@@ -384,7 +482,7 @@ func propC09(c C09Case) error {
 			if found {
 				continue
 			}
-			if strings.Contains(warn, "("+k+")") || strings.Contains(warn, tname) {
+			if warningCovers(ev.Warnings, k, tname) {
 				hC09.Class("field-covered-by-warning")
 				continue
 			}
@@ -421,6 +519,12 @@ func propC09(c C09Case) error {
 		hC09.Class("file-summary-checked")
 	}
 	hC09.Class(fmt.Sprintf("records-%d", min(len(c.Recs), 8)))
+	if len(c.Recs) > 1 && c.Recs[0].Type != recgen.SYSCALL && len(c.Recs[0].User) > 0 {
+		hC09.Class("group-led-by-user-space-record")
+		if ev.Source != nil || ev.Dest != nil {
+			hC09.Class("group-led-by-user-space-record-with-socket-address")
+		}
+	}
 	if collision {
 		hC09.Class("key-collision")
 	}
@@ -503,4 +607,20 @@ func TestC09Modes(t *testing.T) {
 	}
 	hC09.Extra("mode_sweep_exhaustive", true)
 	hC09.Extra("mode_sweep_cases", n)
+}
+
+// warningCovers: a warning accounts for a missing field only if it names that key ("duplicate key (k) from
+// T message") or says that the whole record of that type could not be used ("failed to parse T message",
+// "failed to add T data"). A warning about another key of the same record does not count.
+func warningCovers(ws []error, key, typeName string) bool {
+	for _, w := range ws {
+		m := w.Error()
+		if strings.Contains(m, "("+key+")") {
+			return true
+		}
+		if strings.HasPrefix(m, "failed to") && strings.Contains(m, typeName) {
+			return true
+		}
+	}
+	return false
 }
